@@ -24,6 +24,8 @@ func main() {
 		runC18()
 	case "C01API":
 		runC01API()
+	case "C04B":
+		runC04B()
 	default:
 		fmt.Fprintln(os.Stderr, "unknown property", os.Args[1])
 		os.Exit(64)
